@@ -649,6 +649,24 @@ class Engine:
         op.update(cls=n.cls, target=n.uid)
         self.last_footprint["any_type"] = False
         src = self.ent(n.uid)
+        if n.kind == "object" and any(n.pgs.values()) and self.rng.random() < 0.5:
+            # one grouped child travels on its own first: its identifier is then taken in the target workspace
+            member = self.rng.choice(sorted({u for mem in n.pgs.values() for u in mem}))
+            from geoh5py.objects import Points
+
+            child = self.ent(member)
+            try:
+                cnt = len(child.values) if hasattr(child.values, "__len__") and not isinstance(child.values, str) else 1
+                host = Points.create(self.ws2, vertices=np.zeros((max(cnt, 1), 3)), name=self.new_name("host"))
+                child.copy(parent=host)
+                op["precopied"] = member
+                self.rec.see("copy-out-with-precopied-child")
+            except Exception as exc:  # noqa: BLE001
+                from .core import exc_origin
+
+                if not exc_origin(exc)[0]:
+                    raise
+                self.rec.see("precopy-refused")
         new = src.copy(parent=self.ws2.root, copy_children=True)
         self.copied_out += 1
         op["uid"] = None if new is None else str(new.uid)
